@@ -696,7 +696,7 @@ pub fn run(ctx: &Ctx) -> PropResult {
     let out = run_workloads(ctx, wls);
     let mut meta = PropMeta::default();
     meta.rule = format!(
-        "times: every {} second of the day x sub-second {{0, 1, 999999999}} x 4 random (method, count) + random ns; counts as C04 (0..100, u32::MAX−2.., 2^31±1, the 2^63/2^64-ns wrap thresholds, <2^20, uniform); Time±Time over ALL ordered pairs of a {}-value boundary set + random; Time±Duration {{0, <24h, =24h, k·24h+ε, >2^64 ns, to/back-to midnight ±1 ns}}; constructor grids + random; Time::from(DateTime/&DateTime) over all eras; random API walks of 3–10 steps (add/sub, operators, set_*, clear_until_*, set_offset, as_offset, parse∘format) checked step by step against a (nanoseconds mod 24h, offset) model. Every produced Time must have as_nanos() < 24h, equal (t ± amount) mod 24h, compare equal to the canonical Time of the same time of day, and keep the offset. Non-trivial = wraps across midnight (methods); every operator/constructor/conversion/walk case. Distinct by input hash. Counts in the one-day-wide band below 2^31/2^32/2^63/2^64 ns ÷ unit and Durations at 2^k·unit ± jitter (built with Duration::new, so totals around 2^64 ns are reachable) are part of the generators.",
+        "times: every {} second of the day x sub-second {{0, 1, 999999999}} x 4 random (method, count) + random ns; counts as C04 (0..100, u32::MAX−2.., 2^31±1, the 2^63/2^64-ns wrap thresholds, <2^20, uniform); Time±Time over ALL ordered pairs of a {}-value boundary set + random; Time±Duration {{0, <24h, =24h, k·24h+ε, >2^64 ns, to/back-to midnight ±1 ns}}; constructor grids + random; Time::from(DateTime/&DateTime) over all eras; random API walks of 3–10 steps (add/sub, operators, set_*, clear_until_*, set_offset, as_offset, parse∘format) checked step by step against a (nanoseconds mod 24h, offset) model. Every produced Time must have as_nanos() < 24h, equal (t ± amount) mod 24h, compare equal to the canonical Time of the same time of day, and keep the offset. Non-trivial = wraps across midnight (methods); every operator/constructor/conversion/walk case. Distinct by input hash. Counts in the one-day-wide band below 2^31/2^32/2^63/2^64 ns ÷ unit and Durations at 2^k·unit ± jitter (built with Duration::new, so totals around 2^64 ns are reachable) are part of the generators. Times carrying an Offset::Fixed of a day or more (any i32) in one case of eight, and a dedicated workload where setters, clears, as_offset and the getters under such offsets must still produce / show a time of day; Time::parse with several fraction fields late in the day (an Ok result is a time of day); Offset::Local twins for Time arithmetic.",
         if ctx.quick() { "7th" } else { "single" },
         nb
     );
